@@ -79,6 +79,15 @@ def gen(rng, i, tier):
         lam2 = rng.choice([F(1), F(2), F(1, 2)])
         again["lam"] = [lam2.numerator, lam2.denominator]
         calls.append(again)
+    if len(labs) >= 3 and rng.random() < 0.08:
+        # the spin image of c*x_a -+ c*x_b*x_c as an equality: the genuine z == x AND y form and its same-sign near miss
+        a, b, d = rng.sample(labs, 3)
+        s_ = rng.choice([1, -1, 2])
+        P = b2s_poly([((a,), F(s_)), ((b, d), F(rng.choice([s_, s_, -s_])))])
+        k = rng.choice([1, 1, 2, 4])                       # integer spin coefficients
+        lam = rng.choice([F(1), F(2), F(1, 2)])
+        calls[rng.randrange(len(calls))] = {"rel": "eq", "P": G.jraw([(kk, 4 * k * v) for kk, v in P]),
+                                            "lam": [lam.numerator, lam.denominator], "log": True, "bounds": None}
     return {"obj": G.jraw(obj), "calls": calls, "touch": rng.choice([None, None, "refresh", "copy", "keep", "round"])}
 
 
